@@ -571,6 +571,9 @@ impl<'a, 'tcx> Cx<'a, 'tcx> {
                     AssertKind::MisalignedPointerDereference { .. } => "misaligned".to_string(),
                     AssertKind::NullPointerDereference => "nullptr".to_string(),
                     AssertKind::InvalidEnumConstruction(_) => "invalid_enum".to_string(),
+                    AssertKind::ResumedAfterReturn(_) | AssertKind::ResumedAfterPanic(_) | AssertKind::ResumedAfterDrop(_) => {
+                        "resumed".to_string()
+                    }
                     _ => "other".to_string(),
                 };
                 let exp: Vec<String> = expansion_chain(t.source_info.span).iter().map(|s| js(s)).collect();
@@ -729,6 +732,7 @@ fn dump<'tcx>(tcx: TyCtxt<'tcx>) {
                     ("def", js(&did(tcx, d))),
                     ("name", js(&pretty(tcx, d))),
                     ("kind", js(&format!("{:?}", kind))),
+            ("coroutine", format!("{}", tcx.is_coroutine(d))),
                     ("variants", jarr(&variants)),
                     ("file", js(&file)),
                     ("line", format!("{}", line)),
@@ -816,9 +820,8 @@ fn dump<'tcx>(tcx: TyCtxt<'tcx>) {
         if !matches!(kind, DefKind::Fn | DefKind::AssocFn | DefKind::Closure) {
             continue;
         }
-        if tcx.is_coroutine(d) {
-            continue;
-        }
+        // NB: for a coroutine (the body of an `async fn` / `async` block) this is the lowered state machine: its calls,
+        // statements and panic sites are those of the source body; the resumption checks are tagged "resumed" below.
         let body = tcx.optimized_mir(d);
         let env = TypingEnv::post_analysis(tcx, d);
         let cx = Cx { tcx, body, env };
